@@ -55,7 +55,8 @@ def main():
         shutil.rmtree(scratch + "_evidence", ignore_errors=True)
     d = os.path.join(a.out, a.hid)
     os.makedirs(d, exist_ok=True)
-    shutil.copy(a.patch, os.path.join(d, "patch.diff"))
+    if os.path.abspath(a.patch) != os.path.abspath(os.path.join(d, "patch.diff")):
+        shutil.copy(a.patch, os.path.join(d, "patch.diff"))
     meta = {}
     if a.meta and os.path.exists(a.meta):
         try:
